@@ -677,8 +677,7 @@ def register(E):
             x, y = a[0], a[1]
             r = (x + y) if op == 'add' else (x - y) if op == 'sub' else None
             if op == 'mul':
-                if is_sym(x) and is_sym(y):
-                    raise Unsupported('symbolic*symbolic')
+                x, y = e.mul_operands(x, y)
                 r = x * y
             bad = (r >= U64_) if op != 'sub' else (r < 0)
             return none() if e.branch(bad) else some(r)
